@@ -538,6 +538,9 @@ class Type1TagMemoryReader(object):
             self._data_in_cache[120:128] = read_block_response
 
         while len(self) < stop:
+            if len(self) >> 7 > 15:
+                # beyond the sixteen segments a Type 1 Tag can address
+                raise Type1TagCommandError(SECTOR_ERROR)
             data = self._tag.read_segment(len(self) >> 7)
             self._data_from_tag.extend(data)
             self._data_in_cache.extend(data)
